@@ -5,6 +5,7 @@
 #include <skybrush/yaw_control.h>
 #include <skybrush/rth_plan.h>
 #include <skybrush/utils.h>
+#include <skybrush/buffer.h>
 #include <stdio.h>
 #include <stdlib.h>
 #include <string.h>
@@ -154,6 +155,12 @@ int main(int argc, char** argv) {
     FILE* tf = tmpfile(); fwrite(f,1,n,tf); fflush(tf); lseek(fileno(tf),0,SEEK_SET);
     rc = sb_light_program_init_from_binary_file(&lp, fileno(tf)); printf("fd rc=%d\n",rc);
     if (!rc) sb_light_program_destroy(&lp);
+  }
+
+  if (which == 19) { /* appending to a zero-length view never returns */
+    uint8_t dummy[1] = {0}; sb_buffer_t b; sb_buffer_init_view(&b, dummy, 0);
+    alarm(3);
+    int rc = sb_buffer_append_byte(&b, 7); printf("append to an empty view: rc=%d\n", rc);
   }
   return 0;
 }
